@@ -48,12 +48,7 @@ def main():
             # the reference program must be the model while summarising the reference (helper inlining uses the latest program)
             from vsa import symeval
             try:
-                symeval.set_program(ref); s1 = equiv.summarize(ref, q)
-                symeval.set_program(cur); s2 = equiv.summarize(cur, q)
-                r = equiv.compare(s1, s2)
-                if r is not None:
-                    r2 = equiv.compare_by_cases(s1, s2)
-                    r = None if r2 is None else "%s || cases: %s" % (r[:60], r2)
+                r = equiv.prove(ref, cur, q)       # exactly what vsa/refsub does
                 res.append((q, r is None, r))
             except equiv.NotComparable as e:
                 res.append((q, None, "not comparable: %s" % e))
